@@ -24,7 +24,8 @@ class Obj:
         self.shape = None  # whole (substituted) shape expression
         self.fill = None  # "0" for zeros, "1" for ones, the fill text for full, None for empty
         self.like = None  # zeros_like(<expr>)
-        self.false_at: list[str] = []  # mask: selectors set to False
+        self.false_at: list[str] = []  # mask: selectors set to False (for an all-False mask — `inverted` — set to True)
+        self.inverted = False
         self.dirty: list[str] = []  # mask: any other store
         self.stores: list[tuple] = []  # array: (selector description, value text, lineno)
 
@@ -112,6 +113,12 @@ class RowTracker:
             return Obj("mask", shape, None, dtype, call)
         if fn.endswith(".full") and len(call.args) > 1 and norm(call.args[1]) == "True" and dtype is not None and norm(dtype) in ("bool", "np.bool_"):
             return Obj("mask", shape, None, dtype, call)
+        # the dual idiom: an all-False mask in which the selected rows are set True (`m = zeros(n, bool); m[idx] = True`);
+        # `Z[~m]` then addresses what `Z[ones-mask]` addresses, and `Z[m]` what `Z[~ones-mask]` does
+        if (fn.endswith(".zeros") or (fn.endswith(".full") and len(call.args) > 1 and norm(call.args[1]) == "False")) and dtype is not None and norm(dtype) in ("bool", "np.bool_", "numpy.bool_"):
+            o = Obj("mask", shape, None, dtype, call)
+            o.inverted = True
+            return o
         if isinstance(shape, ast.Tuple) and len(shape.elts) == 2 and isinstance(shape.elts[1], ast.Starred):
             return Obj("array", shape.elts[0], shape.elts[1].value, dtype, call)
         if isinstance(shape, ast.Tuple) and len(shape.elts) == 1:
@@ -184,17 +191,17 @@ class RowTracker:
                 sel = tgt.slice
                 if o.kind == "mask":
                     v = norm(self.subst(value))
-                    if v == "False":
+                    if v == ("True" if getattr(o, "inverted", False) else "False"):
                         o.false_at.append(norm(self.subst(sel)))
                     else:
                         o.dirty.append(f"{norm(tgt)} = {v}")
                     return
                 if isinstance(sel, ast.Name) and sel.id in self.objs and self.objs[sel.id].kind == "mask":
                     m = self.objs[sel.id]
-                    seld = ("mask", tuple(m.false_at), tuple(m.dirty), norm(m.length))
-                elif isinstance(sel, ast.UnaryOp) and isinstance(sel.op, ast.Invert) and isinstance(sel.operand, ast.Name) and sel.operand.id in self.objs:
+                    seld = ("notmask" if getattr(m, "inverted", False) else "mask", tuple(m.false_at), tuple(m.dirty), norm(m.length))
+                elif isinstance(sel, ast.UnaryOp) and isinstance(sel.op, ast.Invert) and isinstance(sel.operand, ast.Name) and sel.operand.id in self.objs and self.objs[sel.operand.id].kind == "mask":
                     m = self.objs[sel.operand.id]
-                    seld = ("notmask", tuple(m.false_at), tuple(m.dirty), norm(m.length))
+                    seld = ("mask" if getattr(m, "inverted", False) else "notmask", tuple(m.false_at), tuple(m.dirty), norm(m.length))
                 else:
                     seld = ("index", norm(self.subst(sel)))
                 o.stores.append((seld, norm(self.subst(value)), lineno))
